@@ -745,7 +745,9 @@ def s13_close_matches_open(chk: Check, proj: Project) -> None:
     m, f = proj.func("util.tag_parser", "parse_tag")
     want = {"]": "list", "}": "dict"}
     n = 0
-    for c in [x for x in ast.walk(f) if isinstance(x, ast.Call) and isinstance(x.func, ast.Attribute) and x.func.attr == "pop" and norm(x.func.value) == "stack"]:
+    # the container stack = the local the container loop measures (`while len(<stack>) > 0`), whatever it is called
+    stk13 = next((x.test.left.args[0].id for x in body_walk(f) if isinstance(x, ast.While) and isinstance(x.test, ast.Compare) and isinstance(x.test.left, ast.Call) and norm(x.test.left.func) == "len" and x.test.left.args and isinstance(x.test.left.args[0], ast.Name)), "stack")
+    for c in [x for x in ast.walk(f) if isinstance(x, ast.Call) and isinstance(x.func, ast.Attribute) and x.func.attr == "pop" and norm(x.func.value) == stk13]:
         atoms = cond_atoms(c)
         tok = next((k for k in want for t, pol in atoms if pol and t.startswith("is_next_token(") and f"'{k}'" in t and "[" not in t.replace(f"['{k}']", "")), None)
         if tok is None:
